@@ -13,7 +13,7 @@ import inspect
 import sys
 
 from . import rt
-from .replay_rewrite import rewrite_clause
+from .replay_rewrite import rewrite_clause_full
 
 
 class Monitor:
@@ -30,9 +30,12 @@ class Monitor:
         loops.sort(key=lambda n: (n.lineno, n.col_offset))
         self.loop_line = self.code.co_firstlineno + loops[loop_index].lineno - 1
         self.compiled = []
+        self.olds = {}
+        self.old_vals = {}
         for kind, label, src_ in clauses:
             try:
-                py, heads = rewrite_clause(src_)
+                py, heads, olds = rewrite_clause_full(src_)
+                self.olds[(kind, label)] = [compile(o, f'<old of {label}>', 'eval') for o in olds]
                 self.compiled.append((kind, label, src_, compile(py, f'<{label}>', 'eval'),
                                       [compile(h, f'<head of {label}>', 'eval') for h in heads]))
             except SyntaxError as e:
@@ -59,6 +62,10 @@ class Monitor:
             if extra:
                 e.update(extra)
             try:
+                for k, ov in enumerate(self.old_vals.get((kind, label), ())):
+                    if isinstance(ov, Exception):
+                        raise ov
+                    e[f'__old_{k}'] = ov
                 if heads:
                     if head_env is None:
                         continue
@@ -84,6 +91,17 @@ class Monitor:
     def _global(self, frame, event, arg):
         if frame.f_code is self.code and self.frame is None:
             self.frame = frame
+            # old(e): evaluated now, on the arguments as they are at function entry
+            env = dict(self.ns)
+            env.update(frame.f_locals)
+            for key, codes in self.olds.items():
+                vals = []
+                for oc in codes:
+                    try:
+                        vals.append(eval(oc, env))
+                    except Exception as ex:  # noqa
+                        vals.append(ex)
+                self.old_vals[key] = vals
             return self._local
         return None
 
